@@ -94,7 +94,7 @@ let cache_reset (c : cache) = match c with CLru l -> CLru (lru_reset l) | CRr r 
 type rd = { toks : string array; mutable pos : int }
 let next (r : rd) : string = let t = r.toks.(r.pos) in r.pos <- r.pos + 1; t
 let rd_int r = int_of_string (next r)
-let rd_z r = z_of_int (rd_int r)
+let rd_z r = z_of_decimal (next r)
 let rd_n r = n_of_int (rd_int r)
 let rd_bytes r = bytes_of_hex (next r)
 let rd_bool r = next r = "1"
@@ -488,6 +488,13 @@ let selftest_fsm (maxrules : int) =
 let () =
   match Array.to_list Sys.argv with
   | _ :: "escape" :: cases :: _ -> engine_escape cases
+  | _ :: "cachekeys" :: cases :: _ ->
+    iter_lines cases (fun c ->
+      match split_ws c with
+      | [ty; h] ->
+        let k = hex_of_bytes (format_key (bytes_of_hex h) (bytes_of_string ty)) in
+        Printf.printf "G=%s A=%s\n" k k
+      | _ -> print_endline "BADCASE")
   | _ :: "line" :: cases :: hxout :: _ -> engine_line cases hxout
   | _ :: "mapper" :: cases :: hxout :: _ -> engine_mapper cases hxout
   | _ :: "pipeline" :: cases :: hxout :: _ -> engine_pipeline cases hxout
